@@ -30,7 +30,8 @@ structure StepClosed (Inv : Node → Prop) : Prop extends Closed Inv where
   revertConfig : ∀ (s : Node), Inv s → Inv s.revertConfig
   commitConfig : ∀ (s : Node), Inv s → Inv s.commitConfig
   publishSnapshot : ∀ (s : Node) f, Inv s → Inv (s.publishSnapshot f)
-  installCommit : ∀ (s : Node), Inv s → Inv (s.withCommitIndex s.snapIndex)
+  /-- `onInstallSnapRequest` sets the commit index to the new snapshot index, which is above it -/
+  installCommit : ∀ (s : Node), Inv s → s.snapIndex > s.commitIndex → Inv (s.withCommitIndex s.snapIndex)
   snapPending : ∀ (s : Node) v, Inv s → Inv (s.withSnapPending v)
   snapResult : ∀ (s : Node) v, Inv s → Inv (s.withSnapResult v)
   bootstrapLast : ∀ (s : Node) i t, Inv s → Inv (s.withLast i t)
@@ -301,6 +302,7 @@ theorem appendCheck_inv (s : Node) (q : AppendReq) (hs : Inv s) : Inv (s.appendC
   unfold Node.appendCheck
   dsimp only
   inv_auto h
+  all_goals (simp only [Node.canCommit, Bool.and_eq_true, decide_eq_true_eq] at *; omega)
 
 theorem onAppendEntries_inv (s : Node) (q : AppendReq) (hs : Inv s) : Inv (s.onAppendEntries q) := by
   unfold Node.onAppendEntries
@@ -308,10 +310,24 @@ theorem onAppendEntries_inv (s : Node) (q : AppendReq) (hs : Inv s) : Inv (s.onA
   have hA : ∀ x, Inv x → Inv (x.appendCheck q) := fun x hx => h.appendCheck_inv x q hx
   have hL : ∀ st, Inv st.s → Inv (appendLoop st q.entries).s := fun st hst => h.appendLoop_inv st _ hst
   repeat' (first | inv_step h | (apply hA) | (apply hL; dsimp only))
+  all_goals (simp only [Node.canCommit, Bool.and_eq_true, decide_eq_true_eq] at *; omega)
 
 theorem fsmRestore_inv (s : Node) (hs : Inv s) : Inv s.fsmRestore := by
   unfold Node.fsmRestore
   inv_auto h
+
+omit h in
+theorem install_commit_guard (s2 : Node) (f : SnapFile) (hgt : ¬ f.index ≤ s2.commitIndex) :
+    ((s2.publishSnapshot f).clearLog.fsmRestore).snapIndex > ((s2.publishSnapshot f).clearLog.fsmRestore).commitIndex := by
+  have hf : ∀ x : Node, x.fsmRestore.snapIndex = x.snapIndex ∧ x.fsmRestore.commitIndex = x.commitIndex := by
+    intro x; unfold Node.fsmRestore Node.panic Node.withFsm
+    constructor <;> (repeat' split) <;> rfl
+  have hc : ∀ x : Node, x.clearLog.snapIndex = x.snapIndex ∧ x.clearLog.commitIndex = x.commitIndex :=
+    fun x => ⟨rfl, rfl⟩
+  have hp : (s2.publishSnapshot f).snapIndex = f.index ∧ (s2.publishSnapshot f).commitIndex = s2.commitIndex :=
+    ⟨rfl, rfl⟩
+  rw [(hf _).1, (hf _).2, (hc _).1, (hc _).2, hp.1, hp.2]
+  omega
 
 theorem onInstallSnap_inv (s : Node) (q : InstallReq) (hs : Inv s) : Inv (s.onInstallSnap q) := by
   unfold Node.onInstallSnap
@@ -323,9 +339,11 @@ theorem onInstallSnap_inv (s : Node) (q : InstallReq) (hs : Inv s) : Inv (s.onIn
     have h3 : Inv s3 := h.publishSnapshot _ _ h2
     split
     · exact h.ret _ _ h2
-    · split
+    · rename_i hgt
+      split
       · exact h.ret _ _ (h.compactLog_inv _ _ h3)
-      · exact h.ret _ _ (h.commitConfig _ (h.changeConfigR _ _ (h.installCommit _ (h.fsmRestore_inv _ (h.clearLog_inv _ h3)))))
+      · exact h.ret _ _ (h.commitConfig _ (h.changeConfigR _ _ (h.installCommit _ (h.fsmRestore_inv _ (h.clearLog_inv _ h3))
+          (install_commit_guard s2 _ hgt))))
 
 theorem onTimeoutNow_inv (s : Node) (hs : Inv s) : Inv s.onTimeoutNow := by
   unfold Node.onTimeoutNow
